@@ -18,9 +18,9 @@ MUTANTS = [
          why="block definition keeps an empty index range -> reader cannot find the tile index"),
     dict(p="C01", id="vt-writer-dedup-wrong-key", file=V + "writer.rs",
          old="if let Some(range) = tile_hash_lookup.get(blob.as_slice()) {",
-         new="if let Some(range) = tile_hash_lookup.get(&blob.as_slice()[..blob.len().min(32)].to_vec()) {",
+         new="if let Some(range) = tile_hash_lookup.get(&blob.as_slice()[..(blob.len() as usize).min(32)].to_vec()) {",
          why="de-duplication keyed by a prefix: different payloads share one range (second edit below makes it effective)",
-         edits=[("tile_hash_lookup.insert(blob.into_vec(), range);", "tile_hash_lookup.insert(blob.as_slice()[..blob.len().min(32)].to_vec(), range);")]),
+         edits=[("tile_hash_lookup.insert(blob.into_vec(), range);", "tile_hash_lookup.insert(blob.as_slice()[..(blob.len() as usize).min(32)].to_vec(), range);")]),
     dict(p="C01", id="vt-write-block-length-is-end", file=V + "writer.rs",
          old="Ok((ByteRange::new(offset0, offset1 - offset0), index_range))", new="Ok((ByteRange::new(offset0, offset1), index_range))",
          why="tiles_range.length recorded as the absolute end position"),
@@ -74,4 +74,31 @@ MUTANTS = [
 		writer.write_start(&blob)?;
 """,
          why="harmless extra header write (meta range only) - blocks_range still empty: must NOT be flagged... (control)", control=True),
+    # ---------------------------------------------------------------- C03
+    dict(p="C03", id="mb-refine-max-wrong-direction", file="versatiles_container/src/container/mbtiles/reader.rs",
+         old='y1 = query("MAX(tile_row)", &format!("{sql_prefix} tile_row >= {y1}"))?;', new='y1 = query("MAX(tile_row)", &format!("{sql_prefix} tile_row <= {y1}"))?;',
+         why="refinement of the MAX estimate searches below the estimate: rows above it are never found"),
+    dict(p="C03", id="mb-no-flip", file="versatiles_container/src/container/mbtiles/reader.rs",
+         old="		bbox_pyramid.flip_y();\n\n		Ok(bbox_pyramid)", new="		Ok(bbox_pyramid)",
+         why="coverage stays in TMS rows while lookups use XYZ"),
+    dict(p="C03", id="mb-bbox-args-crossed", file="versatiles_container/src/container/mbtiles/reader.rs",
+         old="				x0.clamp(0, max_value) as u32,\n				y0.clamp(0, max_value) as u32,", new="				y0.clamp(0, max_value) as u32,\n				x0.clamp(0, max_value) as u32,",
+         why="x_min and y_min crossed in the advertised box"),
+    dict(p="C03", id="mb-estimate-only", file="versatiles_container/src/container/mbtiles/reader.rs",
+         old='			y0 = query("MIN(tile_row)", &format!("{sql_prefix} tile_row <= {y0}"))?;\n', new="",
+         why="MIN(tile_row) stays the three-column estimate"),
+    dict(p="C03", id="tar-no-include", file="versatiles_container/src/container/tar/reader.rs",
+         old="				bbox_pyramid.include_coord(&coord3);\n", new="",
+         why="tar coverage never includes the stored coordinates"),
+    dict(p="C03", id="tar-include-before-format-check-skipped-compression", file="versatiles_container/src/container/tar/reader.rs",
+         old="				let coord3 = TileCoord3::new(x, y, z)?;\n				bbox_pyramid.include_coord(&coord3);",
+         new="				let coord3 = TileCoord3::new(x, y, z)?;\n				if length > 0 {\n					bbox_pyramid.include_coord(&coord3);\n				}",
+         why="zero-length members are served by lookups (Some(empty)) but not advertised", ),
+    dict(p="C03", id="vt-pyramid-first-block-only", file="versatiles_container/src/container/versatiles/types/block_index.rs",
+         old="		for (_coord, block) in self.lookup.iter() {\n			pyramid.include_bbox(block.get_global_bbox());\n		}",
+         new="		for (_coord, block) in self.lookup.iter() {\n			if pyramid.get_level_bbox(block.get_global_bbox().level).is_empty() {\n				pyramid.include_bbox(block.get_global_bbox());\n			}\n		}",
+         why="only the first block of each level is included"),
+    dict(p="C03", id="pm-scan-skips-run-tail", file="versatiles_container/src/container/pmtiles/reader.rs",
+         old="for i in 0..entry.run_length as u64 {", new="for i in 0..(entry.run_length as u64).min(1) {",
+         why="only the first tile of a run is advertised"),
 ]
